@@ -1,47 +1,845 @@
+// C16 harness: backward navigation and offsets are consistent with forward order.
+//
+// Stores of at most 40 events in 1..3 partitions with chunk edges at arbitrary positions are read through
+// backend.Querier.Query with POSITION head/tail and OFFSET +-k for every k in 0..n+1, plain and with WHERE / RANGE,
+// and real cursors over the stored journals are driven with Offset(+j) Offset(+k) Offset(-k) scripts.
+// The order in which newCursor meets its sources is observed, so the model runs the same mixer tree and the
+// oracle compares with the forward read of a cursor with the same tree.
 package main
 
 import (
+	"context"
 	"fmt"
 	"os"
+	"strings"
+	"sync"
 	"time"
+
+	"github.com/logrange/logrange/pkg/cursor"
+	"github.com/logrange/logrange/pkg/model"
+	"github.com/logrange/logrange/pkg/partition"
+	"github.com/logrange/range/pkg/records/journal"
+	. "verifharness/common"
 )
 
-func ids(g []Got) []int {
-	r := []int{}
-	for _, x := range g {
-		r = append(r, x.Id)
-	}
-	return r
+type Variant struct {
+	Where bool      `json:"where,omitempty"`
+	Range *[2]int64 `json:"range,omitempty"`
 }
 
-func main() {
+func (v Variant) ranged() bool { return v.Range != nil }
+func (v Variant) String() string {
+	s := "plain"
+	if v.Where && v.ranged() {
+		s = "where+range"
+	} else if v.Where {
+		s = "where"
+	} else if v.ranged() {
+		s = "range"
+	}
+	return s
+}
+func (v Variant) clauses() string {
+	s := ""
+	if v.Range != nil {
+		s += fmt.Sprintf(` RANGE ["%d":"%d"]`, v.Range[0], v.Range[1])
+	}
+	if v.Where {
+		s += " " + WhereA
+	}
+	return s
+}
+
+type Replay struct {
+	Kind   string     `json:"kind"` // query | script
+	Parts  []PartSpec `json:"parts"`
+	V      Variant    `json:"variant"`
+	Pos    string     `json:"pos,omitempty"` // head | tail
+	Offset int        `json:"offset,omitempty"`
+	Limit  int        `json:"limit,omitempty"`
+	Ops    []Op       `json:"ops,omitempty"`
+	What   string     `json:"what,omitempty"` // tail | head | inverse | witness...
+}
+
+const finiteTimeout = 60 * time.Second
+const hangTimeout = 12 * time.Second
+
+// ------------------------------------------------------------------ store
+
+type store struct {
+	srv      *Server
+	rec      *recFactory
+	parts    []PartSpec
+	lay      []PartLayout
+	byJrnl   map[string]int
+	byLine   map[string]int
+	poisoned bool
+	fwd      map[string][]Item // forward read by variant+order
+	sorted   bool              // every partition stored in time order
+}
+
+var leaked struct {
+	sync.Mutex
+	dirs []string
+}
+
+func openStore(parts []PartSpec) (*store, error) {
 	srv, err := startStoreServer()
 	if err != nil {
-		fmt.Println(err)
-		os.Exit(1)
+		return nil, err
 	}
-	
-	parts := []PartSpec{
-		{Tags: "p=a", Chunks: [][]Ev{{{1, 1}, {2, 2}}, {{3, 3}}}},
-		{Tags: "p=b", Chunks: [][]Ev{{{10, 10}}, {{11, 11}, {12, 12}}}},
+	st := &store{srv: srv, parts: parts, byJrnl: map[string]int{}, byLine: map[string]int{}, fwd: map[string][]Item{}, sorted: true}
+	ok := cursor.VC04WrapItFactory(srv.Provider, func(in cursor.ItFactory) cursor.ItFactory {
+		st.rec = &recFactory{in: in}
+		return st.rec
+	})
+	if !ok {
+		srv.Stop()
+		return nil, fmt.Errorf("cannot wrap the ItFactory of the provider")
 	}
-	lay, err := buildStore(srv, parts)
-	fmt.Println(lay, err)
-	go func() { time.Sleep(60 * time.Second); fmt.Println("TIMEOUT"); os.Exit(3) }()
-	for _, q := range []string{"SELECT FROM p=a OR p=b", "SELECT FROM p=a OR p=b WHERE ts > 0", "SELECT FROM p=a", "SELECT FROM p=a WHERE ts>0", `SELECT FROM p=a OR p=b RANGE ["0":"100"]`} {
-		for k := 0; k <= 7; k++ {
-			g, pos, err := query(srv, q, "tail", -k, 100)
-			fmt.Println(q, "tail", -k, ids(g), pos, err)
+	st.lay, err = buildStore(srv, parts)
+	if err != nil {
+		srv.Stop()
+		return nil, err
+	}
+	for i, l := range st.lay {
+		st.byJrnl[l.Jrnl] = i
+		st.byLine[l.Line] = i
+		for k := 1; k < len(l.Evs); k++ {
+			if l.Evs[k].Ts < l.Evs[k-1].Ts {
+				st.sorted = false
+			}
 		}
-		for k := 0; k <= 7; k++ {
-			g, pos, err := query(srv, q, "head", k, 100)
-			fmt.Println(q, "head", k, ids(g), pos, err)
+	}
+	return st, nil
+}
+
+// close stops the server; a server on which a request hangs is abandoned (its directory is removed at exit)
+func (st *store) close() {
+	if st.poisoned {
+		leaked.Lock()
+		leaked.dirs = append(leaked.dirs, st.srv.Dir)
+		leaked.Unlock()
+		return
+	}
+	st.srv.Stop()
+}
+
+func (st *store) total() int {
+	n := 0
+	for _, l := range st.lay {
+		n += len(l.Evs)
+	}
+	return n
+}
+
+// srcs describes the partitions in tree order for the model; for ranged variants with the index windows the real
+// chunk selector computes
+func (st *store) srcs(order []string, v Variant) ([]Src, error) {
+	var res []Src
+	for _, jn := range order {
+		i, ok := st.byJrnl[jn]
+		if !ok {
+			return nil, fmt.Errorf("unknown journal %s", jn)
 		}
-		for k := 0; k <= 6; k++ {
-			_, pos, _ := query(srv, q, "head", k, 0)
-			g, _, err := query(srv, q, pos, -1, 1)
-			fmt.Println(q, "pos", k, pos, ids(g), err)
-			os.Stdout.Sync()
+		s := Src{Tag: i, Jrn: true, Ranged: v.ranged()}
+		var wins []partition.VC16Window
+		if v.ranged() {
+			src, err := parseSource(st.parts[i].Tags)
+			if err != nil {
+				return nil, err
+			}
+			js, err := st.srv.Partitions.GetJournals(context.Background(), src, 10)
+			if err != nil {
+				return nil, err
+			}
+			for _, j := range js {
+				wins, err = partition.VC16Windows(context.Background(), st.srv.Partitions, model.TimeRange{MinTs: v.Range[0], MaxTs: v.Range[1]}, j)
+				st.srv.Partitions.Release(j.Name())
+			}
+			if err != nil || len(wins) != len(st.lay[i].Chunks) {
+				return nil, fmt.Errorf("windows of %s: %v (%d of %d chunks)", jn, err, len(wins), len(st.lay[i].Chunks))
+			}
 		}
+		evs := st.lay[i].Evs
+		k := 0
+		for ci, c := range st.lay[i].Chunks {
+			sc := SChunk{Id: c.Id, Min: 0, Max: 4294967295}
+			if wins != nil {
+				if uint64(wins[ci].Id) != c.Id {
+					return nil, fmt.Errorf("window order")
+				}
+				sc.Min, sc.Max = int64(wins[ci].MinPos), int64(wins[ci].MaxPos)
+			}
+			for n := 0; n < c.Count && k < len(evs); n++ {
+				sc.Recs = append(sc.Recs, Ev{Ts: evs[k].Ts, Id: evs[k].Id})
+				k++
+			}
+			s.Chunks = append(s.Chunks, sc)
+		}
+		res = append(res, s)
+	}
+	return res, nil
+}
+
+func (st *store) flt(v Variant) *Flt {
+	if !v.Where && !v.ranged() {
+		return nil
+	}
+	f := &Flt{Where: v.Where, Min: minTimestamp, Max: maxTimestamp}
+	if v.ranged() {
+		f.Min, f.Max = v.Range[0], v.Range[1]
+	}
+	if v.Where {
+		for _, l := range st.lay {
+			for _, e := range l.Evs {
+				if e.A {
+					f.Acc = append(f.Acc, e.Id)
+				}
+			}
+		}
+	}
+	return f
+}
+
+func (st *store) items(g []Got) []Item {
+	out := make([]Item, len(g))
+	for i, x := range g {
+		si, ok := st.byLine[x.Tags]
+		if !ok {
+			si = -1
+		}
+		out[i] = Item{Ts: x.Ts, Id: x.Id, Src: si}
+	}
+	return out
+}
+
+func (st *store) selectAll(v Variant) string { return "SELECT FROM g=y" + v.clauses() }
+
+type qout struct {
+	items []Item
+	pos   string
+	order []string
+	err   error
+	hang  bool
+}
+
+// doQuery runs one request with a deadline
+func (st *store) doQuery(v Variant, pos string, offset, limit int, to time.Duration) qout {
+	ch := make(chan qout, 1)
+	go func() {
+		g, p, err := query(st.srv, st.selectAll(v), pos, offset, limit)
+		ch <- qout{items: st.items(g), pos: p, order: append([]string{}, st.rec.order...), err: err}
+	}()
+	select {
+	case r := <-ch:
+		return r
+	case <-time.After(to):
+		st.poisoned = true
+		return qout{hang: true}
 	}
 }
+
+// forward returns the forward read (head, everything) of a cursor whose tree has the given source order
+func (st *store) forward(v Variant, order []string) ([]Item, bool) {
+	key := v.String() + "|" + strings.Join(order, ",")
+	if f, ok := st.fwd[key]; ok {
+		return f, true
+	}
+	for try := 0; try < 80; try++ {
+		r := st.doQuery(v, "head", 0, 10000, finiteTimeout)
+		if r.hang || r.err != nil {
+			return nil, false
+		}
+		k := v.String() + "|" + strings.Join(r.order, ",")
+		st.fwd[k] = r.items
+		if k == key {
+			return r.items, true
+		}
+	}
+	return nil, false
+}
+
+func gPositions(st *store, pos string, order []string) (string, error) {
+	pm := map[string]journal.Pos{}
+	for _, kv := range strings.Split(pos, ":") {
+		p := strings.Split(kv, "=")
+		if len(p) == 2 {
+			jp, err := journal.ParsePos(p[1])
+			if err != nil {
+				return "", err
+			}
+			pm[p[0]] = jp
+		}
+	}
+	var ps []string
+	for _, jn := range order {
+		jp, ok := pm[jn]
+		if !ok {
+			return "", fmt.Errorf("position %q lacks journal %s", pos, jn)
+		}
+		ps = append(ps, GPair(GNat(st.byJrnl[jn]), gZZ(uint64(jp.CId), jp.Idx)))
+	}
+	return GList(ps), nil
+}
+
+func sameItems(a, b []Item) bool {
+	if len(a) != len(b) {
+		return false
+	}
+	for i := range a {
+		if a[i] != b[i] {
+			return false
+		}
+	}
+	return true
+}
+
+// class names the input class of a failed expectation: the known defects live in narrow classes
+func (st *store) class(v Variant, what string, offset int, firstRejected bool) string {
+	merged := len(st.parts) > 1
+	switch {
+	case v.ranged() && offset < 0 && (merged || v.Where):
+		return "c16-range-backward-past-first" // partition.JIterator never reports the backward end
+	case v.Where && merged && offset < 0:
+		return "c16-merged-filter-negative-offset" // fiterator buffer + iterateToPos
+	case merged && !st.sorted && offset < 0:
+		return "c16-merged-unsorted-negative-offset"
+	case (v.Where || v.ranged()) && offset > 0 && firstRejected:
+		return "c16-filter-positive-offset-first-rejected" // Offset(+k) starts with Next without a settling Get
+	}
+	return "c16-" + what
+}
+
+// risky: requests on which the unchanged tree may loop forever. With RANGE the partition iterator never reports
+// the backward end (it yields its first record again and again), so a backward move that runs a partition out of
+// records can spin in fiterator.Get / iterateToPos. A RANGE request with a negative offset is predicted safe only if
+// the event the move ends on (target) lies, in time, strictly after the first stored event of every partition of a
+// time-ordered store (single partition: if the move stays inside the matching data). Risky requests are run in a
+// small number only, with a short deadline, each on a server that is abandoned when the request hangs.
+func (st *store) risky(v Variant, offset int, target *Item) bool {
+	if !v.ranged() || offset >= 0 {
+		return false
+	}
+	if target == nil {
+		return true
+	}
+	if len(st.parts) == 1 {
+		return false
+	}
+	if !st.sorted {
+		return true
+	}
+	for _, l := range st.lay {
+		if len(l.Evs) > 0 && l.Evs[0].Ts >= target.Ts {
+			return true
+		}
+	}
+	return false
+}
+
+// runQuery: POSITION pos OFFSET offset LIMIT limit on the whole store
+func (st *store) runQuery(v Variant, what, pos string, offset, limit int, risky bool) (Case, error) {
+	rp := &Replay{Kind: "query", Parts: st.parts, V: v, Pos: pos, Offset: offset, Limit: limit, What: what}
+	cs := Case{Replay: rp, Stream: "query"}
+	merged := len(st.parts) > 1
+	to := finiteTimeout
+	if risky {
+		to = hangTimeout
+	}
+	r := st.doQuery(v, pos, offset, limit, to)
+	n := st.total()
+	cs.Tags = []string{"query:" + what, "variant:" + v.String(), fmt.Sprintf("parts:%d", len(st.parts))}
+	posG := "PHead"
+	if pos == "tail" {
+		posG = "PTail"
+	}
+	if r.hang {
+		// the tree order of the hanging cursor is unknown: the model must not terminate for the order of the partitions
+		// as stored (single partition) -- for merged stores the case is recorded for the oracle only
+		order := []string{}
+		for _, l := range st.lay {
+			order = append(order, l.Jrnl)
+		}
+		if len(st.rec.order) == len(st.lay) {
+			order = append([]string{}, st.rec.order...)
+		}
+		srcs, err := st.srcs(order, v)
+		if err != nil {
+			return cs, err
+		}
+		cs.Coq = GApp("KQuery", gSrcs(srcs), gFlt(st.flt(v)), posG, GZ(int64(offset)), GNat(limit), "QHang")
+		cs.Oracle = &Violation{Class: st.class(v, "hang", offset, false), Detail: fmt.Sprintf("%s POSITION %s OFFSET %d LIMIT %d did not return within %v", st.selectAll(v), pos, offset, limit, to)}
+		cs.NonTrivial = true
+		return cs, nil
+	}
+	if r.err != nil {
+		return cs, fmt.Errorf("query failed: %v", r.err)
+	}
+	srcs, err := st.srcs(r.order, v)
+	if err != nil {
+		return cs, err
+	}
+	ps, err := gPositions(st, r.pos, r.order)
+	if err != nil {
+		return cs, err
+	}
+	cs.Coq = GApp("KQuery", gSrcs(srcs), gFlt(st.flt(v)), posG, GZ(int64(offset)), GNat(limit), GApp("QOk", gItems(r.items), ps))
+	// non-trivial: the offset crosses a chunk edge or a partition boundary of the merge
+	k := offset
+	if k < 0 {
+		k = -k
+	}
+	cs.NonTrivial = k > 0 && k <= n && (merged || crossesChunk(st.lay[0], pos, k))
+	// oracle: slices of the forward read of a cursor with the same tree
+	f, ok := st.forward(v, r.order)
+	if !ok {
+		if st.poisoned {
+			return cs, nil
+		}
+		return cs, fmt.Errorf("no forward read with the source order of the request")
+	}
+	var want []Item
+	switch {
+	case pos == "tail" && offset <= 0:
+		k := -offset
+		if k > len(f) {
+			k = len(f)
+		}
+		want = f[len(f)-k:]
+	case pos == "head" && offset >= 0:
+		k := offset
+		if k > len(f) {
+			k = len(f)
+		}
+		want = f[k:]
+	case pos == "head" && offset < 0:
+		want = f
+	default: // tail, positive offset
+		want = nil
+	}
+	if len(want) > limit {
+		want = want[:limit]
+	}
+	if !sameItems(r.items, want) {
+		// does the unfiltered read of the same tree start with an event the filter rejects?
+		firstRejected := false
+		if v.Where || v.ranged() {
+			if uf, ok := st.forward(Variant{}, r.order); ok && len(uf) > 0 {
+				firstRejected = len(f) == 0 || uf[0] != f[0]
+			}
+		}
+		cs.Oracle = &Violation{Class: st.class(v, what, offset, firstRejected), Detail: fmt.Sprintf("%s POSITION %s OFFSET %d LIMIT %d over %d partitions: got [%s] want [%s] (forward read of the same tree: [%s])",
+			st.selectAll(v), pos, offset, limit, len(st.parts), fmtItems(r.items), fmtItems(want), fmtItems(f))}
+	}
+	return cs, nil
+}
+
+func crossesChunk(l PartLayout, pos string, k int) bool {
+	if len(l.Chunks) < 2 {
+		return false
+	}
+	if pos == "tail" {
+		return k > l.Chunks[len(l.Chunks)-1].Count
+	}
+	return k >= l.Chunks[0].Count
+}
+
+// runScript drives a real cursor over the stored journals: ops on crsr directly
+func (st *store) runScript(v Variant, what string, ops []Op, risky bool) (Case, error) {
+	rp := &Replay{Kind: "script", Parts: st.parts, V: v, Ops: ops, What: what}
+	cs := Case{Replay: rp, Stream: "script"}
+	ctx := context.Background()
+	cur, err := cursor.VC04NewCursor(ctx, cursor.State{Id: 77, Query: st.selectAll(v), Pos: "head"}, st.rec)
+	if err != nil {
+		return cs, err
+	}
+	order := append([]string{}, st.rec.order...)
+	var obs []string
+	var gets []*Item
+	done := make(chan struct{})
+	go func() {
+		defer close(done)
+		for _, o := range ops {
+			switch o.K {
+			case "get":
+				le, ln, err := cur.Get(ctx)
+				if err != nil {
+					obs = append(obs, "(RItem None)")
+					gets = append(gets, nil)
+				} else {
+					si, ok := st.byLine[string(ln)]
+					if !ok {
+						si = -1
+					}
+					it := Item{Ts: le.Timestamp, Id: idOf(string(le.Msg)), Src: si}
+					obs = append(obs, GApp("RItem", GSome(gItem(it))))
+					gets = append(gets, &it)
+				}
+			case "next":
+				cur.Next(ctx)
+				obs = append(obs, "RUnit")
+			case "release":
+				cur.Release()
+				obs = append(obs, "RUnit")
+			case "offset":
+				cur.Offset(ctx, o.N)
+				obs = append(obs, "RUnit")
+			case "pos":
+				p := cur.CurrentPos()
+				if jp, ok := p.(journal.Pos); ok {
+					obs = append(obs, GApp("RPos", GSome(gZZ(uint64(jp.CId), jp.Idx))))
+				} else {
+					obs = append(obs, "(RPos None)")
+				}
+			}
+		}
+	}()
+	hang := false
+	select {
+	case <-done:
+		cursor.VC04CloseCursor(cur)
+	case <-time.After(map[bool]time.Duration{false: finiteTimeout, true: hangTimeout}[risky]):
+		hang = true
+		st.poisoned = true
+	}
+	srcs, err := st.srcs(order, v)
+	if err != nil {
+		return cs, err
+	}
+	o2 := append([]string{}, obs...)
+	if hang {
+		o2 = append(o2, "RHang")
+	}
+	cs.Coq = GApp("KScript", gSrcs(srcs), gFlt(st.flt(v)), "PHead", gOps(ops), GList(o2))
+	cs.Tags = []string{"script:" + what, "variant:" + v.String(), fmt.Sprintf("parts:%d", len(st.parts))}
+	cs.NonTrivial = len(st.parts) > 1 || len(st.lay[0].Chunks) > 1
+	if hang {
+		cs.Oracle = &Violation{Class: st.class(v, "hang", -1, false), Detail: "a cursor operation did not return"}
+		return cs, nil
+	}
+	// oracle for the inverse scripts [offset j; get; offset k; get; offset -k; get]: the last Get returns what the first did
+	// when the middle one did not run off the data
+	if what == "inverse" && len(gets) == 3 && gets[0] != nil && gets[1] != nil {
+		if gets[2] == nil || *gets[2] != *gets[0] {
+			g2 := "EOF"
+			if gets[2] != nil {
+				g2 = fmtItems([]Item{*gets[2]})
+			}
+			cs.Oracle = &Violation{Class: st.class(v, "inverse", -1, false), Detail: fmt.Sprintf("%s over %d partitions: from next event %s, Offset(+%d) then Offset(-%d) leads to %s", st.selectAll(v), len(st.parts),
+				fmtItems([]Item{*gets[0]}), ops[2].N, ops[2].N, g2)}
+		}
+	}
+	return cs, nil
+}
+
+// ------------------------------------------------------------------ generators
+
+func genParts(r *Rng, np, kind int) []PartSpec {
+	parts := make([]PartSpec, np)
+	budget := r.Range(3, 40)
+	for i := 0; i < np; i++ {
+		ln := budget / np
+		if i == 0 {
+			ln = budget - (budget/np)*(np-1)
+		}
+		if np > 1 && r.Chance(1, 5) {
+			ln = r.Range(1, 3)
+		}
+		if ln < 1 {
+			ln = 1
+		}
+		ts := make([]int64, ln)
+		cur := int64(1000 + r.Intn(5))
+		for k := range ts {
+			switch kind {
+			case 0: // strictly increasing, unique across partitions (residue class per partition)
+				cur += int64(np) * int64(r.Range(1, 4))
+				ts[k] = cur - cur%int64(np) + int64(i)
+				cur = ts[k]
+			case 1: // ties within and across partitions
+				cur += int64(r.Intn(2))
+				ts[k] = cur
+			default: // not time ordered
+				ts[k] = 1000 + int64(r.Intn(12))
+			}
+		}
+		var chunks [][]Ev
+		var cc []Ev
+		edge := r.PickInt(2, 3, 5)
+		for k := 0; k < ln; k++ {
+			cc = append(cc, Ev{Ts: ts[k], Id: i*100 + k + 1, A: r.Chance(3, 5)})
+			if r.Chance(1, edge) && k < ln-1 {
+				chunks = append(chunks, cc)
+				cc = nil
+			}
+		}
+		chunks = append(chunks, cc)
+		parts[i] = PartSpec{Tags: fmt.Sprintf("p=p%d,g=y", i), Chunks: chunks}
+	}
+	return parts
+}
+
+func tsBounds(parts []PartSpec) (int64, int64) {
+	lo, hi := int64(1<<62), int64(-1<<62)
+	for _, p := range parts {
+		for _, c := range p.Chunks {
+			for _, e := range c {
+				if e.Ts < lo {
+					lo = e.Ts
+				}
+				if e.Ts > hi {
+					hi = e.Ts
+				}
+			}
+		}
+	}
+	return lo, hi
+}
+
+func genVariants(r *Rng, parts []PartSpec) []Variant {
+	lo, hi := tsBounds(parts)
+	rng := func() *[2]int64 {
+		a := lo + int64(r.Intn(int(hi-lo)/2+1)) - 1
+		b := hi - int64(r.Intn(int(hi-lo)/2+1)) + 1
+		if r.Chance(1, 4) {
+			a = lo - 5
+		}
+		if r.Chance(1, 4) {
+			b = hi + 5
+		}
+		return &[2]int64{a, b}
+	}
+	vs := []Variant{{}}
+	switch r.Intn(4) {
+	case 0:
+		vs = append(vs, Variant{Where: true})
+	case 1:
+		vs = append(vs, Variant{Range: rng()})
+	case 2:
+		vs = append(vs, Variant{Where: true}, Variant{Range: rng()})
+	default:
+		vs = append(vs, Variant{Where: true, Range: rng()})
+	}
+	return vs
+}
+
+type budgetT struct {
+	sync.Mutex
+	hangs int
+}
+
+var hangBudget budgetT
+
+func (b *budgetT) take() bool {
+	b.Lock()
+	defer b.Unlock()
+	if b.hangs <= 0 {
+		return false
+	}
+	b.hangs--
+	return true
+}
+
+// sweep runs every k for the variants of one store
+func sweepStore(r *Rng, parts []PartSpec, vs []Variant, full bool) ([]Case, error) {
+	st, err := openStore(parts)
+	if err != nil {
+		return nil, err
+	}
+	defer func() { st.close() }()
+	var out []Case
+	n := st.total()
+	add := func(cs Case, err error) error {
+		if err != nil {
+			return err
+		}
+		out = append(out, cs)
+		return nil
+	}
+	reopen := func() error {
+		if !st.poisoned {
+			return nil
+		}
+		st.close()
+		st, err = openStore(parts)
+		return err
+	}
+	for _, v := range vs {
+		fa := st.doQuery(v, "head", 0, 10000, finiteTimeout)
+		if fa.hang || fa.err != nil {
+			return out, fmt.Errorf("forward read failed: hang=%v err=%v", fa.hang, fa.err)
+		}
+		F := fa.items
+		M := len(F)
+		ks := []int{}
+		for k := 0; k <= n+1; k++ {
+			if full || k <= 3 || k >= n-2 || r.Chance(1, 3) {
+				ks = append(ks, k)
+			}
+		}
+		for _, k := range ks {
+			for _, q := range []struct {
+				what, pos string
+				off       int
+			}{{"tail", "tail", -k}, {"head", "head", k}} {
+				var target *Item
+				if q.off < 0 && k <= M {
+					target = &F[M-k]
+				}
+				risky := st.risky(v, q.off, target)
+				if risky && !hangBudget.take() {
+					continue
+				}
+				limit := 10000
+				if r.Chance(1, 6) {
+					limit = r.Range(0, 3)
+				}
+				if err := add(st.runQuery(v, q.what, q.pos, q.off, limit, risky)); err != nil {
+					return out, err
+				}
+				if err := reopen(); err != nil {
+					return out, err
+				}
+			}
+		}
+		// inverse scripts on a real cursor: Offset(+j); Get; Offset(+k); Get; Offset(-k); Get
+		for t := 0; t < 10; t++ {
+			j, k := r.Intn(n+1), r.Range(1, n/2+2)
+			var target *Item
+			if j < M && j+k < M {
+				target = &F[j]
+			}
+			if v.ranged() && (target == nil || st.risky(v, -k, target)) {
+				continue
+			}
+			ops := []Op{{K: "offset", N: j}, {K: "get"}, {K: "offset", N: k}, {K: "get"}, {K: "offset", N: -k}, {K: "get"}, {K: "pos"}}
+			if err := add(st.runScript(v, "inverse", ops, false)); err != nil {
+				return out, err
+			}
+			if err := reopen(); err != nil {
+				return out, err
+			}
+		}
+	}
+	return out, nil
+}
+
+func parseSource(tags string) (*lqlSource, error) { return parseSrc("{" + tags + "}") }
+
+func run(c *Ctx) error {
+	defer func() {
+		for _, d := range leaked.dirs {
+			os.RemoveAll(d)
+		}
+	}()
+	if c.Replay != nil {
+		var rp Replay
+		if err := FromJSON(c.Replay, &rp); err != nil {
+			return err
+		}
+		hangBudget.hangs = 1000
+		st, err := openStore(rp.Parts)
+		if err != nil {
+			return err
+		}
+		defer func() { st.close() }()
+		var cs Case
+		if rp.Kind == "script" {
+			cs, err = st.runScript(rp.V, rp.What, rp.Ops, true)
+		} else {
+			cs, err = st.runQuery(rp.V, rp.What, rp.Pos, rp.Offset, rp.Limit, true)
+		}
+		if err != nil {
+			return err
+		}
+		c.Add(cs)
+		return c.Finish(rule)
+	}
+	hangBudget.hangs = 3
+
+	// ---- corpus: the witnesses of the refuted statements (props/C16.v), always first
+	wit := []struct {
+		parts []PartSpec
+		v     Variant
+		pos   string
+		off   int
+	}{
+		{witnessParts(false), Variant{Where: true}, "tail", -4},
+		{witnessParts(false), Variant{Range: &[2]int64{0, 100}}, "tail", -4},
+		{witnessParts(true), Variant{}, "tail", -1},
+	}
+	for _, w := range wit {
+		st, err := openStore(w.parts)
+		if err != nil {
+			return err
+		}
+		cs, err := st.runQuery(w.v, "witness", w.pos, w.off, 10000, false)
+		st.close()
+		if err != nil {
+			return err
+		}
+		addCase(c, cs)
+	}
+
+	// ---- sweeps
+	type job struct {
+		parts []PartSpec
+		vs    []Variant
+		full  bool
+		r     *Rng
+	}
+	var jobs []job
+	ns := c.N(14)
+	for i := 0; i < ns; i++ {
+		np := c.Rng.PickInt(1, 1, 2, 2, 3)
+		kind := c.Rng.PickInt(0, 0, 1, 1, 2)
+		parts := genParts(c.Rng, np, kind)
+		jobs = append(jobs, job{parts, genVariants(c.Rng, parts), i < 4, c.Rng.Fork()})
+	}
+	res := make([][]Case, len(jobs))
+	errs := make([]error, len(jobs))
+	Parallel(len(jobs), 4, func(i int) { res[i], errs[i] = sweepStore(jobs[i].r, jobs[i].parts, jobs[i].vs, jobs[i].full) })
+	for i := range jobs {
+		if errs[i] != nil {
+			return errs[i]
+		}
+		for _, cs := range res[i] {
+			addCase(c, cs)
+		}
+	}
+	return c.Finish(rule)
+}
+
+// witnessParts: two partitions a = [1,2 | 3] and b = [10 | 11,12] (chunk edges at |); unsorted: a = [5,1], b = [3]
+func witnessParts(unsorted bool) []PartSpec {
+	if unsorted {
+		return []PartSpec{
+			{Tags: "p=p0,g=y", Chunks: [][]Ev{{{Ts: 5, Id: 1, A: true}, {Ts: 1, Id: 2, A: true}}}},
+			{Tags: "p=p1,g=y", Chunks: [][]Ev{{{Ts: 3, Id: 101, A: true}}}},
+		}
+	}
+	return []PartSpec{
+		{Tags: "p=p0,g=y", Chunks: [][]Ev{{{Ts: 1, Id: 1, A: true}, {Ts: 2, Id: 2, A: true}}, {{Ts: 3, Id: 3, A: true}}}},
+		{Tags: "p=p1,g=y", Chunks: [][]Ev{{{Ts: 10, Id: 101, A: true}}, {{Ts: 11, Id: 102, A: true}, {Ts: 12, Id: 103, A: true}}}},
+	}
+}
+
+// addCase registers a case; a case on which the oracle reports a failure is registered a second time without the
+// verdict, so that the correspondence check still demands the model's exact (faithfully wrong) answer on it
+func addCase(c *Ctx, cs Case) {
+	c.Add(cs)
+	if cs.Oracle != nil {
+		tw := cs
+		tw.Oracle = nil
+		tw.NonTrivial = false
+		tw.Stream = "twin"
+		tw.Tags = nil
+		tw.Key = cs.Coq + "#twin"
+		c.Add(tw)
+	}
+}
+
+const rule = "non-trivial iff the offset (0 < k <= n) crosses a chunk edge of the partition or the read is a merge of several partitions"
+
+func main() { Main("C16", "C16K", run) }
